@@ -2803,7 +2803,18 @@ class FileSet:
             # change would not be noticed. Therefore, make sure that the end
             # date is always bigger (later) than the start date.
             if end_date < start_date:
-                end_date += self._end_time_superior
+                # Months and years have no fixed length, go to the same day
+                # of the next month / year instead of adding 31 / 366 days:
+                months = {
+                    self._temporal_resolution["month"]: 1,
+                    self._temporal_resolution["year"]: 12,
+                }.get(self._end_time_superior, None)
+                if months is None:
+                    end_date += self._end_time_superior
+                else:
+                    end_date = (
+                        pd.Timestamp(end_date) + pd.DateOffset(months=months)
+                    ).to_pydatetime()
         else:
             end_date = None
 
